@@ -216,24 +216,26 @@ class Rules(LogicType.Rules):
                     # Identity at one world says nothing about another world.
                     continue
                 s = self.sentence(n)
-                if pa in s.params:
-                    p_old, p_new = pa, pb
-                elif pb in s.params:
-                    p_old, p_new = pb, pa
-                else:
-                    continue
-                # Replace p with p1.
-                params = substitute(s.params, p_old, p_new)
-                # Since we have SelfIdentityClosure, we don't need a = a.
-                if s.predicate == self.predicate and params[0] == params[1]:
-                    continue
-                # Create a node with the substituted param.
-                n_new = swnode(s.predicate(params), w)
-                # Check if it already appears on the branch.
-                if branch.has(n_new):
-                    continue
-                # The rule applies.
-                yield adds(group(n_new), nodes=(node, n))
+                # Replace one occurrence at a time, so that every mixed
+                # substitution instance is reachable.
+                for i, p in enumerate(s.params):
+                    if p == pa:
+                        p_new = pb
+                    elif p == pb:
+                        p_new = pa
+                    else:
+                        continue
+                    params = (*s.params[:i], p_new, *s.params[i + 1:])
+                    # Since we have SelfIdentityClosure, we don't need a = a.
+                    if s.predicate == self.predicate and params[0] == params[1]:
+                        continue
+                    # Create a node with the substituted param.
+                    n_new = swnode(s.predicate(params), w)
+                    # Check if it already appears on the branch.
+                    if branch.has(n_new):
+                        continue
+                    # The rule applies.
+                    yield adds(group(n_new), nodes=(node, n))
 
         def example_nodes(self):
             s1 = Predicated.first()
